@@ -353,7 +353,9 @@ class CInterp:
             args = [self.expr(a, env) for a in n["inner"][1:]]
             if name in self.opaque:
                 return sp.Function(name)(*[a for a in args])
-            if name in _FUNCS and name not in self.functions:
+            has_body = name in self.functions and any(
+                x.get("kind") == "CompoundStmt" for x in self.functions[name].get("inner", []))
+            if name in _FUNCS and not has_body:
                 return _FUNCS[name](*args)
             if name == "clip":
                 return clipf(*args)
